@@ -8,7 +8,8 @@ Only property statements live here; the lemmas are in `Proofs/XPathSelect.lean`.
 
 Reading.  "Records" are dicts; the reference results are the list comprehensions `selectF` /
 `selectWhere`; a selecting lookup returns the list of selected values (`get`, item access), the default /
-`IndexError` when nothing is selected, and `first` additionally unwraps a single match (`firstOf`).
+`IndexError` when nothing is selected, and `first` additionally unwraps a single match (`firstOf`; the default
+is returned as it is, fix C04-f).
 Field names are plain names (`PlainKey`, `FieldKey`), the literal is a plain text (`PlainLit`), written
 bare or quoted (`LitSpell`), the operator as written or normalised (`OpSpell`).
 
@@ -249,11 +250,12 @@ theorem C06_first_unwrap_partial (cls : Cls) (kvs : List (Str × Val)) (name f :
   simp only [selectF_eq] at this
   exact this.2.2
 
-/-- what `firstOf` is: the match itself for a single scalar / dict match, the list for several -/
+/-- what `firstOf` is: the match itself for a single scalar / dict match, the list for several, the caller's default
+as it is — whatever value it is — for none (fix C04-f) -/
 theorem C06_firstOf_cases (vals : List Val) (d v : Val) :
     (vals = [v] → (∀ c x, v ≠ .list c [x]) → firstOf vals d = v) ∧
     (vals.length ≥ 2 → firstOf vals d = .list .n0 vals) ∧
-    (vals = [] → (∀ c x, d ≠ .list c [x]) → firstOf vals d = d) := by
+    (vals = [] → firstOf vals d = d) := by
   refine ⟨?_, ?_, ?_⟩
   · rintro rfl hv
     simp only [firstOf]
@@ -269,17 +271,8 @@ theorem C06_firstOf_cases (vals : List Val) (d v : Val) :
   · intro hlen
     match vals, hlen with
     | a :: b :: rest, _ => rfl
-  · rintro rfl hd
-    simp only [firstOf]
-    cases d with
-    | list c xs =>
-      cases xs with
-      | nil => rfl
-      | cons x xs =>
-        cases xs with
-        | nil => exact absurd rfl (hd c x)
-        | cons y ys => rfl
-    | _ => rfl
+  · rintro rfl
+    rfl
 
 /-- **C06 (fan-out, any path, token level).**  If the tokens `toksP` spell the position of a list of dict
 records anywhere in the tree (plain keys, index steps in any spelling — `Spells`), then `_find` on
@@ -843,12 +836,12 @@ theorem C06_chained_first (cls : Cls) (kvs : List (Str × Val)) (p : Pos)
   exact this
 
 /-- what `first` makes of the per-parent selections `sels` (all non-empty): nothing selected → the default
-(unwrapped if it is a one-element list); exactly one parent selecting exactly one record → that value (unwrapped
+as it is (since fix C04-f also when it is a one-element list); exactly one parent selecting exactly one record → that value (unwrapped
 once more if it is itself a one-element list: three levels in all); exactly one parent selecting several → the list
 of them (ONE level: the parent level is gone); several parents → the list of per-parent results, a parent with one
 selected record represented by the bare value, the others by their lists -/
 theorem C06_chained_first_cases (sels : List (List Val)) (d x : Val) (xs : List Val) :
-    (sels = [] → firstOf (sels.map single) d = unwrap1 d) ∧
+    (sels = [] → firstOf (sels.map single) d = d) ∧
     (sels = [[x]] → firstOf (sels.map single) d = unwrap1 x) ∧
     (sels = [xs] → xs.length ≥ 2 → firstOf (sels.map single) d = .list .n0 xs) ∧
     (sels.length ≥ 2 → firstOf (sels.map single) d = .list .n0 (sels.map single)) := by
